@@ -39,7 +39,8 @@ Lemma mark_loop_spec : forall fuel M j ii n M' j', 0 < ii -> mark_loop fuel M j 
 Proof.
   induction fuel as [|f IH]; intros M j ii n M' j' Hii H; [discriminate|].
   cbn [mark_loop] in H. destruct (Z.leb_spec j n) as [Hle|Hgt].
-  - destruct (IH _ _ _ _ _ _ Hii H) as (k & Hk & Hj & Hn & Hlast & Hm).
+  - destruct (INT_MAX <? j + ii); [discriminate|].
+    destruct (IH _ _ _ _ _ _ Hii H) as (k & Hk & Hj & Hn & Hlast & Hm).
     exists (k + 1). split; [lia|]. split; [lia|]. split; [exact Hn|]. split.
     + intros _. destruct (Z.eq_dec k 0) as [->|]; [lia|]. specialize (Hlast ltac:(lia)). lia.
     + intros x Hx. destruct (Hm x Hx) as [Hx'|[t [Ht Hxt]]].
@@ -216,6 +217,8 @@ Section Main.
   Qed.
 End Main.
 
+(* the model is None for every p whose odd part exceeds INT_MAX - 1 and whenever `int j` would overflow: the statement covers exactly the
+   inputs on which the C++ is defined *)
 Definition Erat_stmt : Prop :=
   forall p l, 1 <= p -> erat_model p = Some l -> NoDup l /\ forall q, In q l <-> prime q /\ (q | p).
 
@@ -223,7 +226,8 @@ Lemma erat_correct : Erat_stmt.
 Proof.
   intros p l Hp H. unfold erat_model in H. destruct (Z.leb_spec p 0); [lia|].
   destruct (Z.odd p) eqn:Eo; cbn [negb] in H.
-  - cbn zeta in H. apply (erat_loop_spec p _ _ _ _ _ _ _ _) in H; [exact H|].
+  - destruct (INT_MAX - 1 <? p); [discriminate|].
+    cbn zeta in H. apply (erat_loop_spec p _ _ _ _ _ _ _ _) in H; [exact H|].
     split; [lia|]. split; [exact Eo|]. split; [apply Z.divide_refl|]. split; [intros q _ Hq; left; exact Hq|].
     split; [intros a []|]. split; [constructor|]. split.
     + intros q Hq Hlt Hqp. pose proof (prime_ge_2 _ Hq). assert (q = 2) by lia. subst q.
@@ -232,6 +236,7 @@ Proof.
   - destruct (halve (S (Z.to_nat p)) p) as [n|] eqn:Eh; [|discriminate].
     assert (Hp0 : 0 < p) by lia.
     destruct (halve_spec _ _ _ Hp0 Eh) as (Hn & Hon & k & Hk & Hpk).
+    destruct (INT_MAX - 1 <? n); [discriminate|].
     cbn zeta in H. apply (erat_loop_spec p _ _ _ _ _ _ _ _) in H; [exact H|].
     assert (Hk1 : 1 <= k).
     { destruct (Z.eq_dec k 0) as [->|]; [|lia]. rewrite Z.pow_0_r, Z.mul_1_l in Hpk. subst n. congruence. }
@@ -246,3 +251,6 @@ Proof.
       * intros q Hq Hlt Hqn. pose proof (prime_ge_2 _ Hq). assert (q = 2) by lia. subst q. exact (H2n Hqn).
       * split; [intros x Hx; rewrite marked_empty in Hx; discriminate|]. split; [lia|reflexivity].
 Qed.
+
+Example erat_example : erat_model 4095 = Some [3; 5; 7; 13] /\ erat_model (2 ^ 31 - 1) = None /\ erat_model 0 = None.
+Proof. vm_compute. repeat split; reflexivity. Qed.
